@@ -490,6 +490,28 @@ pub fn anchors() -> Vec<Ty> {
         Some(0),
     ));
 
+    // portable / native unsized enums in which every variant carries data (MIN_SIZE > DATA_OFFSET), also as FlexVec items
+    let port_nounit = senum(
+        "APortNoUnit",
+        TagTy::U8,
+        vec![var(Tuple, vec![pint(4, false, false)]), var(Tuple, vec![Ty::FlatString(L::LeU16)]), var(Named, vec![pint(2, true, false), fvec(pint(2, false, false), L::U8)])],
+        false,
+        true,
+        None,
+    );
+    v.push(port_nounit.clone());
+    v.push(flex(port_nounit, L::LeU16));
+    let nounit = senum(
+        "ANoUnit",
+        TagTy::U8,
+        vec![var(Tuple, vec![prim(U64)]), var(Tuple, vec![fvec(prim(U16), L::U16)]), var(Named, vec![prim(U32), Ty::FlatString(L::U8)])],
+        false,
+        false,
+        None,
+    );
+    v.push(nounit.clone());
+    v.push(flex(nounit, L::U16));
+
     // --- shapes named in the property texts
     v.push(flex(prim(U8), L::U8));
     v.push(fvec(prim(U8), L::U32));
